@@ -157,6 +157,8 @@ func specResult(root *model.Node, op string) string {
 		return "nil"
 	case "unrelated.bigdry":
 		return "the large report is the model's"
+	case "textpanic":
+		return "the writer's panic reached the caller"
 	}
 	return "?"
 }
@@ -375,6 +377,19 @@ func (t *liveTree) runOp(op, tmp string) string {
 			return "write-error reported"
 		}
 		return "nil although the writer failed"
+	case "textpanic":
+		// the caller's writer panics in its second Write (an aborted HTTP handler does that) and the
+		// caller recovers: the panic is the caller's to see, and nothing of the aborted call may
+		// turn up in a later one
+		pw := &c13PanickyWriter{at: 1}
+		o := Guard(func() error { return gtree.OutputFromRoot(pw, t.root) })
+		if o.Panic == nil {
+			if pw.n <= pw.at {
+				return "the writer's panic reached the caller" // (a tree of one line: the second Write never came)
+			}
+			return "the writer panicked but the call returned " + errStr(o.Err)
+		}
+		return "the writer's panic reached the caller"
 	case "textfail", "jsonfail":
 		// the writer fails at its first write: the call must report it (and leave nothing behind
 		// that a later operation could see)
@@ -635,6 +650,7 @@ func runC13(c *Ctx) bool {
 		{[]string{"iter.stored", "text.b3"}, L - 2},   // one sequence value ranged over again and again while the tree grows
 		{[]string{"walk.reentrant", "text"}, L - 3},
 		{[]string{"unrelated.bigdry", "dryrun"}, L - 4}, // a report beyond 64 KiB earlier in the history
+		{[]string{"textpanic", "text", "json"}, L - 3},   // an output whose writer panicked (recovered by the caller), then further output
 	}
 	for _, ps := range passes {
 		var hist []string
@@ -725,7 +741,7 @@ func runC13(c *Ctx) bool {
 	return runC13Concurrent(c)
 }
 
-var c13Ops = []string{"text", "text.b3", "text.b6", "walk", "iter", "json", "walk.massive", "text.massive", "json.massive", "walkfail", "iterbreak", "textfail", "jsonfail", "dryrun", "mkdir", "verify", "mkdirfail", "verifyfail", "dryrun.json", "dryrun.massive.x5", "dryfail", "iter.stored", "walk.reentrant", "unrelated.bigdry"}
+var c13Ops = []string{"text", "text.b3", "text.b6", "walk", "iter", "json", "walk.massive", "text.massive", "json.massive", "walkfail", "iterbreak", "textfail", "jsonfail", "dryrun", "mkdir", "verify", "mkdirfail", "verifyfail", "dryrun.json", "dryrun.massive.x5", "dryfail", "iter.stored", "walk.reentrant", "unrelated.bigdry", "textpanic"}
 var c13Names = []string{"a", "b", "c", "A", "B", "x.gz", "d e", "日本", "x/y", "p/q"} // the last two are not path elements: mkdir, verify and dry run must reject the tree, whatever happened to it before
 
 const c13Rejected = "REJECTED: invalid name, nothing created or reported"
@@ -1118,14 +1134,22 @@ func evalC13Concurrent(c *Ctx, cs *Case) {
 				sp.Heading = 0
 			}
 			doc := gen.Spell(f, sp)
-			want := model.DryRunReport(model.Merge(f), model.DefaultBranch, []string{".gz", "b"})
+			// every second goroutine asks for its reports WITHOUT an extension option (everything is a
+			// directory then) and asks often: nothing inside the computation of a report yields, so
+			// only many overlapping calls make two of them meet
+			exts, rounds := []string{".gz", "b"}, 12
+			extOpt := []gtree.Option{gtree.WithFileExtensions([]string{".gz", "b"})}
+			if g%2 == 1 {
+				exts, rounds, extOpt = nil, 400, nil
+			}
+			want := model.DryRunReport(model.Merge(f), model.DefaultBranch, exts)
 			<-startBurst
-			for k := 0; k < 12; k++ {
+			for k := 0; k < rounds; k++ {
 				var o Outcome
 				if k%2 == 0 {
-					o = OutputMD(doc, gtree.WithDryRun(), gtree.WithFileExtensions([]string{".gz", "b"}))
+					o = OutputMD(doc, append([]gtree.Option{gtree.WithDryRun()}, extOpt...)...)
 				} else {
-					o = OutputMD(doc, gtree.WithDryRun(), gtree.WithFileExtensions([]string{".gz", "b"}), gtree.WithNoUseIterOfSimpleOutput())
+					o = OutputMD(doc, append([]gtree.Option{gtree.WithDryRun(), gtree.WithNoUseIterOfSimpleOutput()}, extOpt...)...)
 				}
 				c.Count("concurrent_dry_run_reports", 1)
 				if o.Panic != nil || o.Err != nil || string(o.Out) != want {
@@ -1181,4 +1205,16 @@ func c13BigTree() (*gtree.Node, string) {
 		c13BigWant = model.DryRunReport(model.Forest{m}, model.DefaultBranch, c13Ext)
 	})
 	return c13BigNode, c13BigWant
+}
+
+
+// c13PanickyWriter accepts `at` writes and panics in the next one.
+type c13PanickyWriter struct{ n, at int }
+
+func (w *c13PanickyWriter) Write(p []byte) (int, error) {
+	w.n++
+	if w.n > w.at {
+		panic("writer aborted (like http.ErrAbortHandler)")
+	}
+	return len(p), nil
 }
